@@ -107,6 +107,11 @@ pub trait Check {
     fn run_batch(&self, _tier: Tier, _seed: u64) -> Option<Merged> {
         None
     }
+    /// Sanitizer lane: cases `(gen, first index, count)` to re-run under Miri (same run_case code,
+    /// interpreted), plus the direct exercise of the unsafe `LTerm::project` write if `true`.
+    fn miri_lane(&self, _tier: Tier) -> Option<(Vec<(&'static str, u64, u64)>, bool)> {
+        None
+    }
     /// Post-merge hook: may add run-level violations from the merged counters.
     fn finish(&self, _merged: &mut Merged, _tier: Tier) {}
 }
@@ -385,6 +390,12 @@ pub fn run_check(check: &dyn Check, opts: &RunOpts) -> i32 {
     if crash_restarts > 0 {
         bump_by(&mut merged.counters, "worker_aborts_resumed", crash_restarts as u64);
     }
+    // sanitizer lane (Miri): the same monitors over a reduced workload, interpreted
+    if let Some((lane, direct)) = check.miri_lane(opts.tier) {
+        if std::env::var_os("PVMON_SKIP_MIRI").is_none() {
+            run_miri_lane(id, opts, &lane, direct, &mut merged, &mut harness_problems);
+        }
+    }
     check.finish(&mut merged, opts.tier);
 
     // known findings
@@ -509,6 +520,107 @@ pub fn run_check(check: &dyn Check, opts: &RunOpts) -> i32 {
         2
     } else {
         0
+    }
+}
+
+fn run_miri_lane(id: &str, opts: &RunOpts, lane: &[(&'static str, u64, u64)], direct: bool, merged: &mut Merged, problems: &mut Vec<String>) {
+    let harness = Path::new(&verif_root()).join("harness");
+    // one Miri process per chunk of cases (Miri is single-threaded and ~10 s per case)
+    let mut units: Vec<(&'static str, u64)> = vec![];
+    for (g, a, n) in lane.iter() {
+        for i in *a..(*a + *n) {
+            units.push((g, i));
+        }
+    }
+    let nproc = match opts.tier {
+        Tier::Quick => 6,
+        Tier::Thorough => 16,
+    }
+    .min(units.len().max(1));
+    let mut chunks: Vec<Vec<String>> = vec![vec![]; nproc];
+    for (k, (g, i)) in units.iter().enumerate() {
+        chunks[k % nproc].push(format!("{}:{}:1", g, i));
+    }
+    let t0 = Instant::now();
+    let miri = |spec: String, direct: bool| {
+        Command::new("cargo")
+            .arg("+nightly")
+            .arg("miri")
+            .arg("run")
+            .arg("--offline")
+            .arg("-q")
+            .arg("-p")
+            .arg("pvmon")
+            .arg("--bin")
+            .arg("pvcheck")
+            .arg("--")
+            .arg("mirilane")
+            .arg(id)
+            .arg(opts.tier.name())
+            .arg(opts.seed.to_string())
+            .arg(if direct { "direct" } else { "nodirect" })
+            .arg(spec)
+            .current_dir(&harness)
+            .env("CARGO_NET_OFFLINE", "true")
+            .env("MIRIFLAGS", "-Zmiri-disable-isolation -Zmiri-ignore-leaks")
+            .env("CARGO_TARGET_DIR", harness.join("target").join("miri-lane"))
+            .stdin(Stdio::null())
+            .stdout(Stdio::piped())
+            .stderr(Stdio::piped())
+            .spawn()
+    };
+    // build once (first process alone), then fan out
+    let mut outputs = vec![];
+    match miri(String::new(), direct).and_then(|c| c.wait_with_output()) {
+        Ok(o) => outputs.push(o),
+        Err(e) => {
+            problems.push(format!("Miri lane could not be started: {}", e));
+            return;
+        }
+    }
+    let mut children = vec![];
+    for c in chunks.iter().filter(|c| !c.is_empty()) {
+        match miri(c.join(","), false) {
+            Ok(ch) => children.push(ch),
+            Err(e) => problems.push(format!("Miri lane process could not be started: {}", e)),
+        }
+    }
+    for ch in children {
+        match ch.wait_with_output() {
+            Ok(o) => outputs.push(o),
+            Err(e) => problems.push(format!("Miri lane process failed: {}", e)),
+        }
+    }
+    bump_by(&mut merged.counters, "miri_lane_wall_seconds", t0.elapsed().as_secs());
+    bump_by(&mut merged.counters, "miri_processes", outputs.len() as u64);
+    for out in outputs.iter() {
+        let stdout = String::from_utf8_lossy(&out.stdout).to_string();
+        let stderr = String::from_utf8_lossy(&out.stderr).to_string();
+        let mut done = false;
+        for line in stdout.lines() {
+            if let Some(rest) = line.strip_prefix("MIRI-CASE ") {
+                bump_by(&mut merged.counters, "miri_cases_run", 1);
+                if let Some(p) = rest.find("violations=") {
+                    let n: u64 = rest[p + 11..].split_whitespace().next().and_then(|x| x.parse().ok()).unwrap_or(0);
+                    if n > 0 {
+                        merged.violations.push((format!("miri:{}", rest), Violation { monitor: "M-miri".into(), signature: "a monitor fired in the Miri lane".into(), message: rest.to_string(), program: rest.to_string() }));
+                    }
+                }
+            } else if let Some(rest) = line.strip_prefix("MIRI-DIRECT ") {
+                bump_by(&mut merged.counters, "miri_direct_projection_checks", rest.split_whitespace().next().and_then(|x| x.parse().ok()).unwrap_or(0));
+            } else if line.starts_with("MIRI-DONE") {
+                done = true;
+            }
+        }
+        let last_case = stdout.lines().filter(|l| l.starts_with("MIRI-BEGIN")).last().unwrap_or("").to_string();
+        if stderr.contains("Undefined Behavior") {
+            let first: String = stderr.lines().skip_while(|l| !l.contains("Undefined Behavior")).take(14).collect::<Vec<_>>().join("\n");
+            merged.violations.push((format!("miri:{}", last_case), Violation { monitor: "M-miri".into(), signature: "Miri reports undefined behaviour".into(), message: format!("while running {}:\n{}", last_case, first), program: last_case }));
+        } else if !done {
+            problems.push(format!("a Miri lane process did not finish (exit {:?}, last case '{}'): {}", out.status.code(), last_case, stderr.lines().rev().take(5).collect::<Vec<_>>().join(" / ")));
+        } else {
+            bump_by(&mut merged.counters, "miri_lane_clean_processes", 1);
+        }
     }
 }
 
